@@ -11,6 +11,7 @@ R2b long simulated behaviours over a larger universe (3 miniblocks, 5 blocks, 3 
 """
 import json
 import os
+import time
 import vlib
 
 PROPS = ["C46"]
@@ -58,6 +59,12 @@ def run(ctx):
         open(os.path.join(sd, name), "w").write(CFG % d)
         return name
 
+    t0 = [time.time()]
+
+    def lap(name):
+        ctx.notes.append("%s: %.1fs" % (name, time.time() - t0[0]))
+        t0[0] = time.time()
+
     exe = ctx.go_build("vh-historyrepo")
     pr = ctx.vh(exe, ["probe"])
     present = [x for x in str(pr.stats.get("defects", "")).split(",") if x]
@@ -65,8 +72,10 @@ def run(ctx):
 
     # ---- R1a: the intended design satisfies every C46 invariant (exhaustive)
     allinv = INV_ALWAYS + " " + " ".join(sorted(CATS))
-    ctx.tlc(sd, "MC_HistoryRepo", cfg("r1a.cfg", entries=1 if quick else 2, rest="VIEW cvars\nINVARIANTS " + allinv),
+    r1dirs = '"intra", "in"' if quick else ALLDIRS      # for the model only the notification kind matters: both / source+destination
+    ctx.tlc(sd, "MC_HistoryRepo", cfg("r1a.cfg", dirs=r1dirs, entries=1 if quick else 2, rest="VIEW cvars\nINVARIANTS " + allinv),
             timeout=900, coverage=not quick)
+    lap("R1a")
     if not quick:
         ctx.tlc(sd, "MC_HistoryRepo", cfg("r1a2.cfg", mbs='"a", "b"', dirs='"in", "intra"', headers="1, 2, 3", metas="1",
                                             rest="VIEW cvars\nINVARIANTS " + allinv), timeout=1500)
@@ -81,26 +90,29 @@ def run(ctx):
             bad.add("Inv_C46_NotarizationVisible")        # the strict reading implies the weak one
         bad = sorted(bad)
         good = [i for i in sorted(CATS) if i not in bad]
-        ctx.tlc(sd, "MC_HistoryRepo", cfg("r1b.cfg", defects=q(variant), rest="VIEW cvars\nINVARIANTS " + INV_ALWAYS + " " + " ".join(good)),
-                timeout=900)
+        ctx.tlc(sd, "MC_HistoryRepo", cfg("r1b.cfg", dirs=r1dirs, defects=q(variant),
+                                          rest="VIEW cvars\nINVARIANTS " + INV_ALWAYS + " " + " ".join(good)), timeout=900)
         for inv in bad:
-            r = ctx.tlc(sd, "MC_HistoryRepo", cfg("r1c.cfg", defects=q(variant), rest="VIEW cvars\nINVARIANTS " + inv),
+            r = ctx.tlc(sd, "MC_HistoryRepo", cfg("r1c.cfg", dirs='"intra", "in"', defects=q(variant), rest="VIEW cvars\nINVARIANTS " + inv),
                         timeout=600, allow=("invariant",), count=False)
             if r.error == "invariant:" + inv:
                 model_cex.setdefault(",".join(variant), []).append(inv)
             elif r.ok:
                 ctx.broken.append("model variant {%s}: TLC did not find the expected counterexample of %s" % (",".join(variant), inv))
     ctx.cov(model_counterexamples=model_cex)
+    lap("R1b")
 
     # ---- R2a: transition cover of the model of the present code, replayed on the real repository
     beh = ctx.path("edges.ndjson")
     g = ctx.tlc(sd, "MC_HistoryRepo", cfg("gen.cfg", spec="GenSpec", log="LogAppend", depth=6 if quick else 7, defects=q(present),
-                                          dirs='"intra", "in", "toMeta"' if quick else ALLDIRS,
+                                          dirs='"intra", "in", "fromMeta"' if quick else ALLDIRS,   # three distinct concrete paths
                                           rest="VIEW cvars\nACTION_CONSTRAINT EmitEdge"),
                 timeout=1500, behaviours_out=beh, count=False)
     if g.ok and g.behaviours == 0:
         ctx.broken.append("behaviour export produced nothing")
+    lap("R2a generate")
     r = ctx.vh(exe, ["replay", beh], timeout=1500)
+    lap("R2a replay")
     seen_sigs = {v["sig"] for v in r.violations}
     ctx.cov(traces_validated_against_impl=int(r.stats.get("behaviours", 0)), evaluations=int(r.stats.get("lookups", 0)),
             distinct_nontrivial=int(r.stats.get("distinct", 0)), exhaustive=True,
@@ -114,12 +126,14 @@ def run(ctx):
 
     # ---- R2b: long simulated behaviours, larger universe
     beh2 = ctx.path("sim.ndjson")
-    depth = 14 if quick else 18
+    depth = 12 if quick else 18
     ctx.tlc(sd, "MC_HistoryRepo", cfg("sim.cfg", spec="SimSpec", log="LogAppend", depth=depth, defects=q(present),
-                                      mbs='"a", "b", "c"', headers="1, 2, 3, 4, 5", epochs="1, 2, 3", metas="1, 2, 3", entries=2,
+                                      mbs='"a", "b", "c"', headers="1, 2, 3, 4, 5", epochs="1, 2, 3", metas="1, 2, 3", entries=1 if quick else 2,
                                       rest="ACTION_CONSTRAINT EmitFull"),
-            simulate=150 if quick else 2000, depth=depth, timeout=1500, behaviours_out=beh2, count=False)
+            simulate=60 if quick else 2000, depth=depth, timeout=1500, behaviours_out=beh2, count=False)
+    lap("R2b generate")
     r2 = ctx.vh(exe, ["replay", beh2], timeout=1500, count_samples=False)
+    lap("R2b replay")
     ctx.cov(traces_validated_against_impl=int(r2.stats.get("behaviours", 0)), evaluations=int(r2.stats.get("lookups", 0)),
             drift_lookups=int(r2.stats.get("drift_lookups", 0)))
 
